@@ -1983,6 +1983,10 @@ func genSurface(rng *rand.Rand, name string, surf []lockstep.MethodInfo, frac in
 	p.Steps = append(p.Steps, Step{Step: "block", Txs: []Tx{{K: "ibtp", Src: "chainA:svc1", Dst: "chainB:svc1", Idx: 1, Typ: "REQ", T: 0, From: "u1"}}})
 	p.Steps = append(p.Steps, Step{Step: "block", Txs: []Tx{{K: "ibtp", Src: "chainA:svc1", Dst: "chainB:svc1", Idx: 1, Typ: "OK", From: "u2"}}})
 	p.Steps = append(p.Steps, Step{Step: "block", Txs: []Tx{{K: "ibtp", Src: "chainA:svc1", Dst: "chainB:svc1", Idx: 2, Typ: "REQ", T: 0, From: "u1"}}})
+	// a begun one-to-many transaction of chain B's service: its children are somebody else's records
+	p.Steps = append(p.Steps, Step{Step: "block", Txs: []Tx{
+		{K: "ibtp", Src: "chainB:svc1", Dst: "chainA:svc1", Idx: 1, Typ: "REQ", T: 0, Proof: "ok", From: "u1", GDst: []string{"chainA:svc1", "CHAINA:svc1"}, GIdx: []uint64{1, 1}},
+		{K: "ibtp", Src: "chainB:svc1", Dst: "CHAINA:svc1", Idx: 1, Typ: "REQ", T: 0, Proof: "ok", From: "u1", GDst: []string{"chainA:svc1", "CHAINA:svc1"}, GIdx: []uint64{1, 1}}}})
 	// a registered audit node: its account is the "node account" among the callers
 	p.Align = true
 	p.Steps = append(p.Steps, Step{Step: "submit", M: "RegisterNode", By: "@admin0", Obj: "x", Args: []string{"@nvp1", "nvpNode", "", "u64:0", "node1", "chainA", "r"}})
@@ -2016,7 +2020,8 @@ func genSurface(rng *rand.Rand, name string, surf []lockstep.MethodInfo, frac in
 		"0x00000000000000000000000000000000000000a2", "register", "update", "freeze", "activate", "logout", "pause", "unpause", "clear", "bind",
 		"available", "frozen", "approve", "reject", "governanceAdmin", "appchainAdmin", "auditAdmin", "vpNode", "nvpNode", "ServiceMgr", "AppchainMgr", "SimpleMajority", "a > 0.5 * t",
 		"name-chainA", "CallContract", "ETH", "x", ""}
-	ids := []string{"chainA", "chainA:svc1", "svc:chainA:svc1", "svc:chainA:svc1-1356:chainB:svc1-2", "svc:chainA:svc1-1356:chainB:svc1-1", "@proposal", "@admin-chainA", "chainB:svc1", "@nvp1"}
+	ids := []string{"chainA", "chainA:svc1", "svc:chainA:svc1", "svc:chainA:svc1-1356:chainB:svc1-2", "svc:chainA:svc1-1356:chainB:svc1-1", "@proposal", "@admin-chainA", "chainB:svc1", "@nvp1",
+		"svc:chainB:svc1-1356:chainA:svc1-1", "svc:chainB:svc1-1356:CHAINA:svc1-1"}
 	arg := func(t string) (string, bool) {
 		switch t {
 		case "string":
@@ -2062,12 +2067,12 @@ func genSurface(rng *rand.Rand, name string, surf []lockstep.MethodInfo, frac in
 				ok := true
 				for ai, t := range mi.In {
 					a, c := arg(t)
-					if (ro.role == "frozenaudit" || ro.role == "auditadmin") && t == "string" && try%2 == 1 {
+					if (ro.role == "frozenaudit" || ro.role == "auditadmin" || (ro.role == "frozenadmin" && try%4 == 1)) && t == "string" && try%2 == 1 {
 						// aimed at itself: the caller is the object of the call, the other names are nodes
 						if ai == 0 {
-							a = "@" + ro.acct
+							a = "@" + strings.TrimPrefix(ro.acct, "@")
 						} else {
-							a = []string{"@nvp3", "@nvp1", "@nvp2", "@" + ro.acct, "r"}[(try/2+(ai-1)*(1+try/10))%5] // every name in every place
+							a = []string{"@nvp3", "@nvp1", "@nvp2", "@" + strings.TrimPrefix(ro.acct, "@"), "r"}[(try/2+(ai-1)*(1+try/10))%5] // every name in every place
 						}
 					}
 					if !c {
@@ -2102,7 +2107,16 @@ func genSurface(rng *rand.Rand, name string, surf []lockstep.MethodInfo, frac in
 			first = append(first, c)
 		}
 	}
-	calls = append(first, last...)
+	sort.SliceStable(last, func(i, j int) bool { return last[i].M != "ActivateRole" && last[j].M == "ActivateRole" })
+	// ... and once it has asked for its own activation (status activating: still not one of the available admins) a frozen
+	// caller tries a third of its reserved operations again
+	var again []Tx
+	for i, c := range first {
+		if (c.Role == "frozenadmin" || c.Role == "frozenaudit") && !c.Promoted && i%3 == 0 && !strings.HasPrefix(c.M, "Get") && !strings.HasPrefix(c.M, "Is") && !strings.HasPrefix(c.M, "Count") {
+			again = append(again, c)
+		}
+	}
+	calls = append(append(first, last...), again...)
 	for i := 0; i < len(calls); i += 3 {
 		j := i + 3
 		if j > len(calls) {
